@@ -209,6 +209,32 @@ def button_edges(n):
     return body
 
 
+def button_edges_levels(n):
+    """The provider returns arbitrary integer levels 0..3 (any non-zero level = pressed): one click per rising edge of
+    the pressed/released signal - a change between two non-zero levels is not an edge."""
+    def body(hw):
+        S = hw.load("Reduino.Sensors")
+        sig = [sym_int(f"level{i}", 0, 3) for i in range(n)]
+        taken = []
+
+        def provider():
+            taken.append(1)
+            return sig[len(taken) - 1] if len(taken) <= n else 0
+        clicks = []
+        b = S.Button(2, on_click=lambda: clicks.append(1), state_provider=provider)
+        rets = [b.is_pressed() for _ in range(n)]
+        claim("one sample per call", len(taken) == n)
+        prev = z3.BoolVal(False)
+        edges = z3.BitVecVal(0, 64)
+        for i, s in enumerate(sig):
+            sz = zint(s) != 0
+            edges = edges + z3.If(z3.And(sz, z3.Not(prev)), z3.BitVecVal(1, 64), z3.BitVecVal(0, 64))
+            claim(f"is_pressed()#{i} returns 1/0 for the level", zint(rets[i]) == z3.If(sz, z3.BitVecVal(1, 64), z3.BitVecVal(0, 64)))
+            prev = sz
+        claim("on_click fires once per rising edge of pressed/released", edges == len(clicks))
+    return body
+
+
 def button_set_pressed(hw):
     S = hw.load("Reduino.Sensors")
     clicks = []
@@ -397,6 +423,7 @@ def obligations(tier):
     obs.append(("Utils.sleep[float]", utils_sleep("float"), {}))
     obs.append(("Utils.sleep[time.sleep]", utils_sleep_default, {}))
     obs.append((f"Button.edges[n={4 if tier == 'quick' else 6}]", button_edges(4 if tier == "quick" else 6), {"max_paths": 5000}))
+    obs.append((f"Button.edges_levels[n={3 if tier == 'quick' else 5}]", button_edges_levels(3 if tier == "quick" else 5), {"max_paths": 5000}))
     obs.append(("Button.set_pressed", button_set_pressed, {}))
     obs.append(("Potentiometer.read", pot_read, {}))
     obs.append(("Potentiometer.default", pot_default, {}))
